@@ -57,6 +57,9 @@ CHECKS = {
  "C19": dict(cat="fault_enumeration", sec="5.19", tech="exhaustive enumeration of fault points (every downlink message index x 4 fault kinds x count vectors) on the real process under a syscall monitor",
    text="For each count vector every downlink message index of the fault-free conversation is combined with {peer closes instead, ff ff ff, 00, truncated message}; the real process runs under strace, whose sendmsg/recvmsg history is the ground truth of what the emulator consumed; once it consumed the fault it must exit non-zero without the banner and without sending again, and it must always terminate within the horizon.",
    note="strace as monitor; the message after Registration Complete is exempt for garbage (per the property); truncated messages that still decode are out of scope; thorough replays conversations with real sleeps to validate the time shim"),
+ "C20": dict(cat="exploration", sec="5.20", tech="controlled cooperative scheduler over the instrumented real code: exhaustive enumeration of schedules up to a preemption bound, plus a separate free-running -race pass",
+   text="The repository packages are rebuilt through an overlay that inserts a yield at the entry of every function touching a mutated package-level variable (found by AST analysis) and replaces sync by a scheduler-aware version; for all 66 pairs of 11 operation kinds (each thread on its own UE context) every schedule with <=2 preemptions (quick) / <=3 and triples (thorough) is executed and each thread's output compared with the sequential one; deadlocks are violations. Because cooperative hand-offs hide races from the detector, the same bodies also run free on 2/8/64 goroutines in a binary built with -race.",
+   note="only sequentially consistent interleavings at the inserted points; the -race pass is a dynamic detector (not an enumeration); G up to 64 applies to the free-running pass only"),
 }
 
 NOT_YET = {}
